@@ -16,7 +16,9 @@ REQUIRED_CLASSES = {"all": ["asymmetric-ins-del", "long-string>255", "condensed-
 MIN_OUTCOMES = 10
 SINGLE_THREAD_RAPIDFUZZ = True
 
-EXTRA_W = ((2, 3, 10), (3, 2, 10), (1, 1, 3), (7, 11, 13))
+EXTRA_W = ((2, 3, 10), (3, 2, 10), (1, 1, 3), (7, 11, 13),
+           # equal insertion and deletion weights k >= 2 with a substitution no cheaper than 2k (an indel-only optimum scaled by k), and just below
+           (2, 2, 4), (2, 2, 5), (3, 3, 7), (3, 3, 6), (2, 2, 3), (4, 4, 8), (5, 5, 9))
 LONG = (254, 255, 256, 257, 300, 400)
 
 
